@@ -258,6 +258,7 @@ class Sched:
             raise Abort()
         me.state = 'running'
         me.npoints += 1
+        me.put_since_point = False
         ex = self.inject.pop((me.name, me.npoints), None)
         if ex is not None:
             raise ex
@@ -410,6 +411,12 @@ class CQueue:
     def put(self, item, *a, **k) -> None:
         self.items.append(item)                # left mover: no scheduling point
         self.history.append((self.s.next_seq(), item))
+        try:
+            # ... except against what the putter does to the log file next
+            # (see CFile.write): remembered on the thread
+            self.s.me().put_since_point = True
+        except KeyError:
+            pass
 
     def get(self, *a, **k):
         self.s.yield_point('q.get', self, lambda: len(self.items) > 0)
@@ -560,7 +567,11 @@ class CFile:
             me = self._s.me()
         except KeyError:
             return self._f.write(data)
-        if self._last.get(me.name) != me.npoints:
+        if self._last.get(me.name) != me.npoints or getattr(me, 'put_since_point', False):
+            # first write of a burst, or the first write after the thread has
+            # handed a message to another thread (which may act on it - tell a
+            # seat that the session is over - before this reaches the file)
+            me.put_since_point = False
             self._s.yield_point('file.write', self)
             self._last[me.name] = me.npoints
         return self._f.write(data)
